@@ -13,6 +13,9 @@
 #include "common.hpp"
 #include "life_track.hpp"
 #include "life_families.hpp"
+#include <sanitizer/common_interface_defs.h>
+#include <sys/wait.h>
+#include <fcntl.h>
 
 using namespace life;
 
@@ -20,6 +23,21 @@ struct Slot { std::unique_ptr<AnyObj> o; bool usable; };
 static std::map<int, Slot> objs;
 
 static int id_of(const std::string& s) { return atoi(s.c_str()); }
+
+// what is running, for the sanitizer death callback: "<op> fam=<family> [self] [to-moved-from] [on-deserialized]"
+static std::string g_desc;
+static std::map<int, std::string> g_fam;       // object id -> family
+static std::map<int, bool> g_deser;            // object id -> created by deserialization
+
+// a sanitizer report (ASan / UBSan with -fno-sanitize-recover) ends the process: turn it into an observation line
+// that names the operation, so that the finding has a specific key, and leave without running destructors
+static bool g_probe = false;
+static void on_sanitizer_death() {
+  if (g_probe) _exit(66);
+  std::cout << "FATAL sanitizer-report " << g_desc << std::endl;
+  std::cout.flush();
+  _exit(0);
+}
 
 static Slot& usable(int id) {
   auto it = objs.find(id);
@@ -55,12 +73,30 @@ static std::string images() {
   return os.str();
 }
 
+static std::string describe(const std::vector<std::string>& w) {
+  const std::string& op = w[0];
+  std::string d = op;
+  auto fam = [&](int id) { auto it = g_fam.find(id); return it == g_fam.end() ? std::string("?") : it->second; };
+  if (op == "new") return d + " fam=" + w[1];
+  if (w.size() < 2) return d;
+  int a = id_of(w[1]);
+  d += " fam=" + fam(a);
+  if ((op == "cassign" || op == "massign") && w.size() > 2) {
+    if (w[1] == w[2]) d += " self";
+    auto it = objs.find(a);
+    if (it != objs.end() && !it->second.usable) d += " to-moved-from";
+  }
+  if (g_deser.count(a) && g_deser[a]) d += " on-deserialized";
+  return d;
+}
+
 static void do_op(const std::vector<std::string>& w) {
   const std::string& op = w[0];
   if (op == "new") {
     int id = id_of(w[2]); fresh(id);
     std::unique_ptr<AnyObj> o(make_object(w[1], id, w));
     objs[id] = Slot{std::move(o), true};
+    g_fam[id] = w[1]; g_deser[id] = false;
   } else if (op == "upd") {
     Slot& s = usable(id_of(w[1]));
     s.o->update(w);
@@ -68,19 +104,22 @@ static void do_op(const std::vector<std::string>& w) {
     Slot& s = usable(id_of(w[1])); int d = id_of(w[2]); fresh(d);
     std::unique_ptr<AnyObj> o(s.o->copy());
     objs[d] = Slot{std::move(o), true};
+    g_fam[d] = g_fam[id_of(w[1])]; g_deser[d] = g_deser[id_of(w[1])];
   } else if (op == "move") {
     Slot& s = usable(id_of(w[1])); int d = id_of(w[2]); fresh(d);
     std::unique_ptr<AnyObj> o(s.o->move_new());
     s.usable = false;
     objs[d] = Slot{std::move(o), true};
+    g_fam[d] = g_fam[id_of(w[1])]; g_deser[d] = g_deser[id_of(w[1])];
   } else if (op == "cassign") {
     Slot& d = any(id_of(w[1])); Slot& s = usable(id_of(w[2]));
     d.o->copy_assign(*s.o);
     d.usable = true;
+    g_deser[id_of(w[1])] = g_deser[id_of(w[2])];
   } else if (op == "massign") {
     Slot& d = any(id_of(w[1])); Slot& s = usable(id_of(w[2]));
     d.o->move_assign(*s.o);
-    if (&d != &s) { s.usable = false; d.usable = true; }
+    if (&d != &s) { s.usable = false; d.usable = true; g_deser[id_of(w[1])] = g_deser[id_of(w[2])]; }
   } else if (op == "merge" || op == "mergemv") {
     Slot& d = usable(id_of(w[1])); Slot& s = usable(id_of(w[2]));
     if (&d == &s) throw BadOp("self merge");
@@ -96,6 +135,7 @@ static void do_op(const std::vector<std::string>& w) {
     Slot& s = usable(id_of(w[1])); int d = id_of(w[2]); fresh(d);
     std::unique_ptr<AnyObj> o(s.o->roundtrip(w));
     objs[d] = Slot{std::move(o), true};
+    g_fam[d] = g_fam[id_of(w[1])]; g_deser[d] = true;
   } else if (op == "trim") {
     usable(id_of(w[1])).o->trim();
   } else if (op == "reset") {
@@ -107,6 +147,7 @@ static void do_op(const std::vector<std::string>& w) {
 }
 
 int main(int, char**) {
+  __sanitizer_set_death_callback(on_sanitizer_death);
   std::string line;
   while (std::getline(std::cin, line)) {
     auto w = vh::split(line);
@@ -122,13 +163,36 @@ int main(int, char**) {
     if (w[0] == "alloc") { L.shared_inst = w.size() > 1 && w[1] == "shared"; std::cout << "cfg\n"; continue; }
     L.begin_op();
     std::string status = "ok";
+    g_desc = describe(w);
+    if (g_desc.find(" self") != std::string::npos || g_desc.find(" to-moved-from") != std::string::npos) {
+      // assignments to the object itself / to a moved-from object: run the operation in a forked probe first, so that a
+      // crash or a sanitizer report of a runtime that does not honour the death callback (UBSan) still yields an
+      // observation line naming the operation
+      std::cout.flush();
+      pid_t pid = fork();
+      if (pid == 0) {
+        g_probe = true;
+        int fd = open("/dev/null", O_WRONLY); if (fd >= 0) { dup2(fd, 1); dup2(fd, 2); }
+        try { do_op(w); } catch (...) {}
+        _exit(0);
+      }
+      int st = 0;
+      if (pid > 0 && waitpid(pid, &st, 0) == pid && !(WIFEXITED(st) && WEXITSTATUS(st) == 0)) {
+        std::cout << "FATAL sanitizer-report " << g_desc << std::endl;
+        std::cout.flush();
+        _exit(0);
+      }
+    }
     try { do_op(w); }
     catch (const BadOp& e) { std::cout << "bad " << e.what() << "\n"; continue; }
     catch (const std::exception& e) { status = "throw"; if (getenv("VH_VERBOSE")) std::cerr << "exception: " << e.what() << "\n"; }
     std::string obs = ledger_observation();
-    std::cout << status << " " << obs << " | " << images() << "\n";
+    std::string desc = g_desc;
+    g_desc = "computing-image-after " + desc;
+    std::cout << status << " " << obs << " | " << images() << (status == "throw" ? " | T " + desc : "") << "\n";
   }
   // objects the history left alive are destroyed here; LeakSanitizer then checks what is still allocated
+  g_desc = "destroy-at-exit";
   objs.clear();
   if (!ledger().live.empty() || !items().st.empty()) {
     std::cout << "FATAL leak-at-exit blocks=" << ledger().live.size() << " items=" << items().st.size() << "\n";
